@@ -189,7 +189,21 @@ def run_case(spec):
                 try:
                     rec = fit_observed(est, P.copy(), y.copy(), bounds=b_arg)
                 except Exception as e:
-                    viol.append(V(site, 'raises', 'fit raised %s: %s' % (type(e).__name__, str(e)[:120]), tr))
+                    # conditioning guard for the 'raises' clause too: if the state the documented recursion reaches with this
+                    # budget is itself numerically singular (condition number > 1e10 - the default bounds on a conflicting
+                    # pair set with a rigid slack drive M there), a definiteness test that fails by rounding is not judged
+                    ill = False
+                    if type(e).__name__ == 'NonPSDError' and hasattr(est, 'bounds_'):
+                        bu, bl = (float(x) for x in est.bounds_)
+                        pv_, nv_ = P[y == 1][:, 0] - P[y == 1][:, 1], P[y == -1][:, 0] - P[y == -1][:, 1]
+                        Aref, lref = itml_ref.solve(M0, pv_, nv_, bu, bl, gamma, sweeps=mi, tol=tol)[:2]
+                        ev = np.linalg.eigvalsh(Aref) if np.isfinite(Aref).all() else np.array([-1.0, 1.0])
+                        growth = np.abs(lref).max() * (np.vstack([pv_, nv_]) ** 2).sum(1).max() / np.abs(M0inv).max()
+                        ill = ev.min() <= 0 or ev.max() / ev.min() > 1e10 or growth > 1e6      # same growth bound as the identity clause
+                    if ill:
+                        stats['raises_in_numerically_singular_state_not_judged'] = stats.get('raises_in_numerically_singular_state_not_judged', 0) + 1
+                    else:
+                        viol.append(V(site, 'raises', 'fit raised %s: %s' % (type(e).__name__, str(e)[:120]), tr))
                     break
                 evals += 1
                 states += 1
